@@ -12,13 +12,13 @@ TRUST = (
 )
 
 # id -> (engine, technique, level text, design ref)
-SM_TECH = "bounded exhaustive exploration of the real StateMachine: prefix-replay DFS over all operation/clock/in-state-action sequences plus explicit-state BFS with canonical state merging, lock-step reference model and clause monitors"
+SM_TECH = "bounded exhaustive exploration of the real StateMachine: prefix-replay DFS over all operation/clock/in-state-action sequences, explicit-state BFS with canonical state merging (control alphabet to a fixed depth; clock/engage/done/duration-edit alphabet until the state space closes, also next to a busy sibling instance), lock-step reference model and independent clause monitors"
 SM_TEXT = (
     "Every operation sequence up to the stated depth (and every canonical state up to the BFS depth) of every generated machine shape is "
     "executed on the real class under a harness-owned exact clock and compared step by step with a reference model and with clause monitors "
     "transcribed from the property; the result is a coverage statement over the bounded alphabet, not a sample."
 )
-ROBOT_TECH = "exhaustive enumeration of driver-station histories (boot word + one word per loop iteration + shutdown) for generated robot layouts, each executed through the real MagicRobot.startCompetition() in a baton-serialized thread under a harness-owned clock / driver station / NetworkTables"
+ROBOT_TECH = "exhaustive enumeration of driver-station histories (boot word + one word per loop iteration + shutdown; all histories over the four modes to a fixed depth, the disabled words that keep a mode bit set, and long histories over every two- and three-word alphabet) for generated robot layouts, each executed through the real MagicRobot.startCompetition() in a baton-serialized thread under a harness-owned clock / driver station / NetworkTables"
 ROBOT_TEXT = (
     "All mode histories up to the stated depth are executed on the real control loop (unique interleaving: the harness only moves the clock "
     "while the robot thread waits in NotifierDelay.wait), so the claim is a coverage statement over layouts x histories x fault plans within the bounds in the evidence file."
@@ -45,7 +45,7 @@ CHECKS = {
     "C19": ("ctl", "explicit-state BFS with replay over sample / record / watchdog operation sequences on the real objects (closed where the clamped state space is finite), exact models or clause monitors, flat sequences as cross-check", "Toggle, ButtonDebouncer and PeriodicFilter state spaces close under the operation alphabet, giving all reachable states; SimpleWatchdog and debounced Toggle are explored to the stated depth.", "4 (ctl engine)"),
     "C20": (
         "crc",
-        "explicit-state BFS over the closed 128-state checksum register through the real crc7(), plus exhaustive error-pattern and short-message enumeration",
+        "explicit-state BFS over the closed 128-state checksum register through the real crc7(), exhaustive error-pattern and short-message enumeration, a length sweep, and exhaustive call histories on a re-loaded module (hidden state in the function)",
         "The table-driven implementation is a finite machine (128 register values x 256 input bytes). All 32768 transitions are "
         "executed on the real function and compared with the bit-serial CRC; with the base case this is a complete induction over "
         "the message length. Error detection / linearity are decided by enumerating every pattern in the stated classes.",
